@@ -59,8 +59,10 @@ def check_core(weights, G):
 
 def check_scene(case):
     fr, eo, go, res = frames.frame_result(case["est"], case["gt"], ego=None, task="detection", targets=case["targets"], crit=case["crit"],
-                                          pass_thr=case["thr"], policy="DEFAULT", metrics=dict(center_distance_thresholds=[case["thr"]]))
+                                          pass_thr=case["thr"], policy=case.get("policy", "DEFAULT"), metrics=dict(center_distance_thresholds=[case["thr"]]))
     targets = case["targets"]
+    pol = case.get("policy", "DEFAULT")
+    compat = lambda e, g: pol == "ALLOW_ANY" or e == g or (pol == "ALLOW_UNKNOWN" and e.value == "unknown")
     for m in fr.metrics_score.maps:
         if m.matching_mode.value != "Center Distance":
             continue
@@ -73,7 +75,7 @@ def check_scene(case):
             w = []
             for r in rs:
                 g = r.ground_truth_object
-                ok = g is not None and g.semantic_label.label.value == lab and r.estimated_object.semantic_label.label == g.semantic_label.label and r.center_distance.value < case["thr"][li]
+                ok = g is not None and g.semantic_label.label.value == lab and compat(r.estimated_object.semantic_label.label, g.semantic_label.label) and r.center_distance.value < case["thr"][li]
                 w.append(1.0 if ok else 0.0)
             want = oracle_ap(w, G)
             if want is None:
@@ -107,7 +109,12 @@ def gen_scene(rnd):
             g.update(label=e["label"], x=e["x"] + rnd.choice([0.2, 0.8, 1.6]) + 0.011 * i, y=e["y"] + 0.01 * i)
         gt.append(g)
     thr = [rnd.choice([0.5, 1.0, 2.0])] * 3
-    return dict(est=est, gt=gt, targets=targets, crit=dict(max_x_position_list=[20.0] * 3, max_y_position_list=[20.0] * 3), thr=thr)
+    policy = rnd.choice(["DEFAULT", "DEFAULT", "ALLOW_UNKNOWN", "ALLOW_UNKNOWN", "ALLOW_ANY"])
+    if policy != "DEFAULT":
+        for e in est:
+            if rnd.random() < 0.4:
+                e["label"] = "unknown"          # not a target label: such a result is judged at the threshold of its ground truth's label
+    return dict(est=est, gt=gt, targets=targets, crit=dict(max_x_position_list=[20.0] * 3, max_y_position_list=[20.0] * 3), thr=thr, policy=policy)
 
 
 def search(item, seed):
